@@ -4,8 +4,11 @@ from props_common import COMMON_NOTE
 CONF = dict(
     # mk: exhaustive n <= 9 x all match subsets (n <= 14 thorough) + that many random larger blocks;
     # mhist: one MerkleBlock object over time (extract, edit count/flags/hashes in place, extract again);
+    # mkdense: every n in 1..72 with all / even / odd / all-but-one transactions matched (proofs that visit nearly every node: more than 2n-1 flag bits);
+    # mkdbig: the same match sets for n in 127..130, 255..258, 511..514, 1023..1026 (oracle only: the extracted SHA-256 is too slow for K here);
     # mkc: literal reading of the corruption clause; proof: corrupted / malformed raw merkle blocks; claim: pegin.Claim
-    families=[('mk', 24, 400), ('mkc', 60, 400), ('proof', 520, 8000), ('mhist', 270, 4000), ('claim', 240, 4000)],
+    families=[('mk', 24, 400), ('mkdense', 288, 288), ('mkdbig', 64, 400), ('mkc', 60, 400), ('proof', 520, 8000), ('mhist', 270, 4000), ('claim', 240, 4000)],
+    s_only_families=['mkdbig'],
     compare=None,
     trusted=[
         'modelled by hand: block/merkle_block.go (calcTreeWidth, traverseAndExtract, ExtractMatches, serializeVBits), pegin/pegin.go (Claim, createPeginInput, output search, createPeginWitness, SerializeValue); cursors into VBits/TxHashes are modelled as unread suffixes',
